@@ -64,13 +64,17 @@ class Speaker(metaclass=ABCMeta):
 
         orb.event = None
         results = []
+        backward = False
         for listener in listeners:
             if listener.check(orb):
+                backward = orb.date < listener.prev.date
                 results.append(self._bisect(listener.prev, orb, listener))
 
             # Saving of the current value for the next iteration
             listener.prev = orb
-        return sorted(results, key=lambda x: x.date)
+
+        # The events are sorted along the direction of the iteration
+        return sorted(results, key=lambda x: x.date, reverse=backward)
 
     def _bisect(self, begin, end, listener):
         """This method search for the zero-crossing of the watched parameter
